@@ -101,4 +101,41 @@ func init() {
 		},
 		Outside: "fee rates above 10^11 sat/kvB or below 1000; more than 3 coins; signing itself (the signature bytes) is not run",
 	})
+	reg(&propDef{
+		ID: "C17",
+		Runs: []hrun{
+			{Pkg: snaclPkg, Fn: "ZzC17Cipher0", Tiers: "qt", Reach: []string{"c17-end", "other-key", "tamper-nonce", "tamper-box", "trunc-short", "trunc-box", "second-encryption"}, Bound: "empty plaintext; key, nonce source, tamper position/mask, truncation length symbolic"},
+			{Pkg: snaclPkg, Fn: "ZzC17Cipher1", Tiers: "qt", Reach: []string{"c17-end", "tamper-box"}, Bound: "1-byte plaintext"},
+			{Pkg: snaclPkg, Fn: "ZzC17Cipher2", Tiers: "qt", Reach: []string{"c17-end"}, Bound: "2-byte plaintext"},
+			{Pkg: snaclPkg, Fn: "ZzC17Cipher4", Tiers: "t", Reach: []string{"c17-end"}, Bound: "4-byte plaintext"},
+			{Pkg: snaclPkg, Fn: "ZzC17ShortNonce", Tiers: "qt", Reach: []string{"c17-end"}, Bound: "random source failing after a symbolic number (<24) of bytes"},
+			{Pkg: snaclPkg, Fn: "ZzC17Params", Tiers: "qt", Reach: []string{"c17-end"}, Bound: "Parameters fully symbolic (salt, digest, N, R, P as 64-bit values); other lengths within 24 below / 8 above and 0..2"},
+			{Pkg: snaclPkg, Fn: "ZzC17Password1", Tiers: "qt", Reach: []string{"c17-end", "near-miss-rejected", "restart-accepts", "digest-near-miss", "salt-changed", "longer"}, Bound: "1-byte symbolic passphrase"},
+			{Pkg: snaclPkg, Fn: "ZzC17Password2", Tiers: "qt", Reach: []string{"c17-end", "near-miss-rejected", "restart-accepts"}, Bound: "2-byte symbolic passphrase"},
+			{Pkg: snaclPkg, Fn: "ZzC17Password3", Tiers: "t", Reach: []string{"c17-end"}, Bound: "3-byte symbolic passphrase"},
+		},
+		Assume: []string{
+			"secretbox is an ideal AEAD: Seal on symbolic input returns fresh bytes of length len(m)+16, Open succeeds exactly for a recorded (box, nonce, key) triple (decided symbolically); on fully concrete input the real secretbox runs",
+			"scrypt is an ideal collision-free KDF on symbolic input (equal inputs decided symbolically, otherwise fresh output different from all earlier ones); the real scrypt runs on concrete input and validates the cost parameters",
+			"SHA-256 collision-free (tokenised on symbolic input)",
+			"that XSalsa20-Poly1305, scrypt and SHA-256 are what they claim to be is outside",
+		},
+		Outside: "plaintexts longer than 4 bytes, passphrases longer than 3 bytes, strength of the primitives; waddrmgr's use of snacl is covered by C05/C04 when built",
+	})
+	reg(&propDef{
+		ID: "C18",
+		Runs: []hrun{
+			{Pkg: chainPkg, Fn: "ZzC18K2B0", Tiers: "qt", Reach: []string{"c18-end", "producer-finished-without-consumer"}, Bound: "2 items, unbuffered output, all schedules"},
+			{Pkg: chainPkg, Fn: "ZzC18K3B0", Tiers: "qt", Reach: []string{"c18-end", "producer-finished-without-consumer"}, Bound: "3 items, buffer 0"},
+			{Pkg: chainPkg, Fn: "ZzC18K3B1", Tiers: "qt", Reach: []string{"c18-end", "producer-finished-without-consumer"}, Bound: "3 items, buffer 1"},
+			{Pkg: chainPkg, Fn: "ZzC18K3B1Take1", Tiers: "qt", Reach: []string{"c18-end"}, Bound: "3 items, buffer 1, consumer takes 1 then Stop with items pending"},
+			{Pkg: chainPkg, Fn: "ZzC18StepSmall", Tiers: "qt", Reach: []string{"c18-end", "overflow-non-empty"}, Bound: "worker started from every state with capacity<=1, overflow<=2, then <=1 send and any number of receives, all schedules"},
+			{Pkg: chainPkg, Fn: "ZzC18K4B1", Tiers: "t", Reach: []string{"c18-end"}, Bound: "4 items, buffer 1"},
+			{Pkg: chainPkg, Fn: "ZzC18K4B2", Tiers: "t", Reach: []string{"c18-end"}, Bound: "4 items, buffer 2"},
+			{Pkg: chainPkg, Fn: "ZzC18K4B0Take2", Tiers: "t", Reach: []string{"c18-end"}, Bound: "4 items, buffer 0, consumer takes 2"},
+			{Pkg: chainPkg, Fn: "ZzC18Step", Tiers: "t", Reach: []string{"c18-end", "overflow-non-empty"}, Bound: "worker started from every state with capacity<=2, overflow<=3, then <=2 sends, all schedules"},
+		},
+		Assume:  []string{"cooperative scheduler: context switches at channel operations and selects only; the default branch of a non-blocking select and the arrival order of operations on the channels such selects mention are scheduling choices (sched.go); items are symbolic but the order property does not depend on their values"},
+		Outside: "more than 4 items in flight, buffers larger than 2, several producers or consumers; interleavings are enumerated exhaustively (structural forks), the solver only supplies item values",
+	})
 }
